@@ -28,9 +28,18 @@ def check_merge_projections(ctx):
     n = 0
     vals = itertools.count(1)
 
+    def value():
+        # the arguments of a projection are arbitrary values: sentinels of several kinds (string, number, array, nested list);
+        # the merged list must hold the SAME objects
+        i = next(vals)
+        return [f"v{i}", i, np.array([i, i + 1]), np.array([np.array([i]), f"s{i}"], dtype=object)][i % 4]
+
+    def same_lists(got, want):
+        return isinstance(got, list) and isinstance(want, list) and len(got) == len(want) and all(g is w for g, w in zip(got, want))
+
     def lists(k):
         for pat in itertools.product([True, False], repeat=k):
-            yield [None if h else f"v{next(vals)}" for h in pat]
+            yield [None if h else value() for h in pat]
     def rec(cur_lists, holes, depth):
         nonlocal bad, n
         if bad:
@@ -44,8 +53,8 @@ def check_merge_projections(ctx):
             except Exception as e:
                 got = f"raised {type(e).__name__}: {e}"
             want = fill_spec(arr)
-            if got != want:
-                bad = dict(arr=arr, got=got, want=want)
+            if not same_lists(got, want):
+                bad = dict(arr=repr(arr), got=repr(got), want=repr(want))
                 return
         if depth == 3 or holes == 0:
             return
@@ -151,3 +160,32 @@ def replay_scopes(inputs, obl):
     if problems:
         return dict(confirmed=True, detail='; '.join(problems[:3]))
     return dict(confirmed=False, detail='KlongContext behaves as a stack of maps in the scripted histories')
+
+
+def replay_application(inputs, obl):
+    """function application forms whose value is fixed by the reference: recursion through .f with declared locals, projections whose
+    arguments are lists, nested calls"""
+    from klongpy import KlongInterpreter
+    problems = []
+    cases = [
+        ('fact::{[a];a::x;:[x<2;1;a*.f(x-1)]};fact(5)', 120),
+        ('fib::{[a b];a::x;b::x-1;:[x<2;x;.f(a-1)+.f(b-1)]};fib(10)', 55),
+        ('down::{[t];t::x;:[x>0;.f(x-1);0];t};down(3)', 3),
+        ('sum::{[h];h::*x;:[0=#x;0;h+.f(1_x)]};sum([1 2 3 4])', 10),
+        ('f::{x,y};g::f(;[1 2 3]);g(0)', [0, 1, 2, 3]),
+        ('f::{x,y};g::f([1 2 3];);g(0)', [1, 2, 3, 0]),
+        ('f::{x,y,z};g::f(;[1 2];);h::g(0;);h(9)', [0, 1, 2, 9]),
+        ('f::{(#x)+y};g::f("abc";);g(1)', 4),
+    ]
+    for prog, want in cases:
+        k = KlongInterpreter()
+        try:
+            got = k(prog)
+            got = got.tolist() if hasattr(got, 'tolist') else got
+        except Exception as e:
+            got = f"raised {type(e).__name__}: {str(e)[:70]}"
+        if got != want:
+            problems.append(f"{prog} -> {got!r}, the reference gives {want!r}")
+    if problems:
+        return dict(confirmed=True, detail='; '.join(problems[:3]))
+    return dict(confirmed=False, detail='recursion through .f and projections with list arguments give the reference values')
